@@ -39,11 +39,12 @@ func c12Alphabets() []*c12Sys {
 			{"1.0.0+build", "", 1, false},
 			{"v1.0.0", "", 1, false},
 			{"1.2.0", "latest-1", 2, false},
-			{"1.5.0", "latest", 25, false},
+			{"1.5.0", "stable,latest,lts", 25, false},
 			{"2.0.0-rc.1", "", 30, true},
 			{"2.0.0", "", 40, false},
 			{"2.1.0", "beta,next", 50, false},
 			{"3.0.0-alpha", "latest", 60, true},
+			{"3.0.0-beta", "", 61, true},
 			{"not-a-version", "", -1, false},
 			{"beta", "", -1, false},
 		},
@@ -57,7 +58,7 @@ func c12Alphabets() []*c12Sys {
 			">1.0.0 <=2.0.0": {"1.2.0", "1.5.0", "2.0.0"},
 			"1.x || 3.x":     {"1.0.0", "1.0.0+build", "v1.0.0", "1.2.0", "1.5.0"},
 			"2.0.0-rc.1":     {"2.0.0-rc.1"},
-			">=3.0.0-0":      {"3.0.0-alpha"},
+			">=3.0.0-0":      {"3.0.0-alpha", "3.0.0-beta"},
 			"4.x":            {},
 		},
 		nonRange: []string{"latest", "beta", "next", "not-a-version", "nope", "latest-1"},
@@ -252,7 +253,7 @@ func C12(tier string) {
 				// npm: at most one latest-tagged record per list (a registry has one latest)
 				nl := 0
 				for _, i := range cur {
-					if s.recs[i].tags == "latest" {
+					if strings.Contains(","+s.recs[i].tags+",", ",latest,") {
 						nl++
 					}
 				}
